@@ -273,9 +273,8 @@ package layout
 //@ func (*ReadingOrderResult) GetParagraphs results (res)
 //@   property C09
 //@   flags nosafety
-//@   requires !isnil(r)
-//@   ensures conserved_over_sections: len(r.Lines) > 0 && len(r.Sections) > 1 ==> !isnil(res) && parasum(res.Paragraphs, len(res.Paragraphs)) == secsum(r.Sections, len(r.Sections))
-//@   ensures conserved_single_section: len(r.Lines) > 0 && len(r.Sections) <= 1 ==> !isnil(res) && parasum(res.Paragraphs, len(res.Paragraphs)) == linesum(r.Lines, len(r.Lines))
+//@   ensures conserved_over_sections: !isnil(r) && len(r.Lines) > 0 && len(r.Sections) > 1 ==> !isnil(res) && parasum(res.Paragraphs, len(res.Paragraphs)) == secsum(r.Sections, len(r.Sections))
+//@   ensures conserved_single_section: !isnil(r) && len(r.Lines) > 0 && len(r.Sections) <= 1 ==> !isnil(res) && parasum(res.Paragraphs, len(res.Paragraphs)) == linesum(r.Lines, len(r.Lines))
 //@   loop 0:
 //@     invariant parasum(allParagraphs, len(allParagraphs)) == secsum(r.Sections, $i)
 //@   loop 1:
